@@ -133,14 +133,16 @@ func extractMethodsFromNamedType(named *types.Named) []TypeMethod {
 	// Get method set for *T (includes both T and *T receivers)
 	ptrType := types.NewPointer(named)
 	methodSet := types.NewMethodSet(ptrType)
+	valueMethodSet := types.NewMethodSet(named)
 
 	for i := 0; i < methodSet.Len(); i++ {
 		selection := methodSet.At(i)
 		method := selection.Obj().(*types.Func)
 		sig := method.Type().(*types.Signature)
 
-		// Determine if receiver is pointer
-		recvIsPointer := isPointerReceiver(sig.Recv().Type())
+		// A method needs a pointer receiver iff it is not in the method set of the value type
+		// (methods promoted through an embedded pointer are available on the value as well)
+		recvIsPointer := valueMethodSet.Lookup(method.Pkg(), method.Name()) == nil
 
 		methods = append(methods, TypeMethod{
 			Name:              method.Name(),
